@@ -131,4 +131,18 @@ var checks = map[string]*check{
 			{Name: "concurrent", Kind: "explore", Scen: "once_conc", Depths: depths([]int{2}, []int{2, 3}), Budget: budget(3*time.Minute, 20*time.Minute)},
 		},
 	},
+	"C10": {
+		Title: "Plugin output never crashes or stalls the host; stderr is forwarded faithfully",
+		Level: "exploration",
+		Rule: "every stderr sequence of <= 2 (quick) / <= 3 (thorough) lines over a 35-entry alphabet (text, [LEVEL] prefixes, panic traces, hclog JSON at each level, JSON with wrong field types, non-object JSON, duplicate keys, lines of length B-3..2B+3, CRLF, empty) x buffer sizes {16, 64, 65536} x final newline present/absent, " +
+			"and every stdout sequence of <= 2 (thorough 3) lines with lengths {0, 1, 65535, 65536, 65537, 200000} after the handshake, through the real Client with a scripted runner whose stdio are 64 KiB OS-pipe models; compared with a reference line splitter / level mapper; non-trivial = more than the single canonical text line",
+		Assumptions: []string{
+			"reference leaves the record shape undefined for JSON objects whose @message/@level/@timestamp is not a string or whose timestamp does not parse (only: host survives, bytes forwarded, one record)",
+			"for lines that do not fit the buffer only byte fidelity and order are required",
+			"a host panic kills the worker process; the driver attributes it to the journalled case and confirms it in a fresh worker",
+		},
+		Parts: []part{
+			{Name: "output", Kind: "explore", Scen: "plugin_output", BatchN: 100, Depths: depths([]int{0}, []int{0}), Budget: budget(3*time.Minute, 30*time.Minute)},
+		},
+	},
 }
